@@ -191,7 +191,7 @@ def describe(tier):
                 "the raw bytes of all four tables = digest of the configuration run alone; a global-state monitor hashes every non-callable module-level object, "
                 "class attribute and default-argument tuple of aquacrop.* and numpy.geterr() after every operation: it must never change (fix-point => isolation for "
                 "histories of any length). Every sequence runs in its own fresh interpreter.",
-        "bound": "operation sequences of length <= " + ("2" if tier == "quick" else "3") + " over |Q| = 10, complete",
+        "bound": "operation sequences of length <= " + ("2" if tier == "quick" else "3") + f" over |Q| = {len(q_specs())}, complete",
         "exhaustive": True,
         "witnesses": WITNESSES,
         "assumptions": ["bitwise equality on one interpreter/numpy build", "state held outside aquacrop.* modules (pandas/numpy internals) is observed only through its effect on the tables"],
